@@ -207,7 +207,7 @@ fn leg_ids(out: &str, tier: &str, summary: &mut serde_json::Map<String, Value>, 
     let mut rng = Rng::from_env();
     // Coq reads case files at a few KB/s: the budget is in nodes (about 50 bytes of Coq text each)
     let (max_files, max_bytes, max_nodes, budget) =
-        if tier == "thorough" { (140, 40_000, 8_000, 110_000usize) } else { (36, 9_000, 2_500, 11_000usize) };
+        if tier == "thorough" { (140, 40_000, 8_000, 80_000usize) } else { (36, 9_000, 2_500, 11_000usize) };
     // examples + corpus always; corelib files sampled by seed
     let (fixed, mut pool): (Vec<_>, Vec<_>) = files.into_iter().partition(|p| !p.starts_with("/repo/corelib"));
     let mut chosen = fixed;
@@ -232,7 +232,7 @@ fn leg_ids(out: &str, tier: &str, summary: &mut serde_json::Map<String, Value>, 
     let mut cur: Vec<String> = vec![];
     let mut cur_nodes = 0usize;
     let mut it = Interner::default();
-    let mut flush = |cur: &mut Vec<String>, it: &mut Interner, shard: &mut usize| {
+    let flush = |cur: &mut Vec<String>, it: &mut Interner, shard: &mut usize| {
         if cur.is_empty() {
             return;
         }
@@ -964,7 +964,7 @@ fn run_history(
 fn leg_reid(out: &str, tier: &str, summary: &mut serde_json::Map<String, Value>, samples: &mut Vec<String>) {
     let mut rng = Rng::from_env();
     rng.next();
-    let n_cases = if tier == "thorough" { 60 } else { 10 };
+    let n_cases = if tier == "thorough" { 30 } else { 7 };
     let srcs: Vec<PathBuf> = ["/repo/examples", "/verif/corpus/C13"].iter().flat_map(|d| cairo_files(Path::new(d))).collect();
     let work = PathBuf::from(format!("{out}/../work/reid"));
     let _ = std::fs::remove_dir_all(&work);
@@ -976,7 +976,7 @@ fn leg_reid(out: &str, tier: &str, summary: &mut serde_json::Map<String, Value>,
     for c in 0..n_cases {
         let src = &srcs[g.rng.below(srcs.len() as u64) as usize];
         let text = std::fs::read_to_string(src).unwrap();
-        if text.len() > if tier == "thorough" { 12_000 } else { 2_500 } {
+        if text.len() > if tier == "thorough" { 5_000 } else { 2_000 } {
             continue;
         }
         let path = work.join(format!("f{c}.cairo"));
